@@ -16,7 +16,9 @@ Inductive msev (inp : inputs) : expr -> Z -> Prop :=
 | msev_mul : forall a b x y, msev inp a x -> msev inp b y -> msev inp (EMul a b) (x * y)
 | msev_lt : forall a b x y, msev inp a x -> msev inp b y -> msev inp (ELt a b) (if x <? y then 1 else 0)
 | msev_mod : forall a m x, msev inp a x -> msev inp (EMod a m) (x mod m)
-| msev_if : forall c a b x v, msev inp c x -> msev inp (if x =? 0 then b else a) v -> msev inp (EIf c a b) v.
+| msev_if : forall c a b x v, msev inp c x -> msev inp (if x =? 0 then b else a) v -> msev inp (EIf c a b) v
+| msev_gnil : msev inp (EGroup []) 0
+| msev_gcons : forall n ns x y, msev inp (ERead n) x -> msev inp (EGroup ns) y -> msev inp (EGroup (n :: ns)) (x + y).
 
 Definition MSpecI (inp : inputs) (n : node) (v : Z) : Prop := msev inp (ERead n) v.
 
@@ -88,7 +90,9 @@ Proof.
     destruct (msexpr f p inp e2) as [y|] eqn:E2; [|discriminate]. rewrite (IH _ _ _ E2 _ Hle'). exact H.
   - destruct (msexpr f p inp e1) as [x|] eqn:E1; [|discriminate]. rewrite (IH _ _ _ E1 _ Hle').
     eapply IH; eauto.
-  - discriminate.
+  - destruct ns as [|n ns]; [exact H|].
+    destruct (msexpr f p inp (ERead n)) as [x|] eqn:E1; [|discriminate]. rewrite (IH _ _ _ E1 _ Hle').
+    destruct (msexpr f p inp (EGroup ns)) as [y|] eqn:E2; [|discriminate]. rewrite (IH _ _ _ E2 _ Hle'). exact H.
 Qed.
 
 Lemma msexpr_msev : forall f inp e v, msexpr f p inp e = Some v -> msev inp e v.
@@ -108,7 +112,9 @@ Proof.
   - destruct (msexpr f p inp e1) as [x|] eqn:E1; [|discriminate].
     destruct (msexpr f p inp e2) as [y|] eqn:E2; [|discriminate]. inversion H. constructor; auto.
   - destruct (msexpr f p inp e1) as [x|] eqn:E1; [|discriminate]. econstructor; eauto.
-  - discriminate.
+  - destruct ns as [|n ns]; [inversion H; constructor|].
+    destruct (msexpr f p inp (ERead n)) as [x|] eqn:E1; [|discriminate].
+    destruct (msexpr f p inp (EGroup ns)) as [y|] eqn:E2; [|discriminate]. inversion H. constructor; auto.
 Qed.
 
 Lemma msev_msexpr : forall inp e v, msev inp e v -> exists f, msexpr f p inp e = Some v.
@@ -127,6 +133,9 @@ Proof.
   - destruct IHmsev as [f1 H1]. exists (S f1). cbn [msexpr]. rewrite H1. reflexivity.
   - destruct IHmsev1 as [f1 H1]. destruct IHmsev2 as [f2 H2]. exists (S (f1 + f2)). cbn [msexpr].
     rewrite (msexpr_mono _ _ _ _ H1 (f1 + f2)%nat) by lia. apply (msexpr_mono _ _ _ _ H2). lia.
+  - exists 1%nat. reflexivity.
+  - destruct IHmsev1 as [f1 H1]. destruct IHmsev2 as [f2 H2]. exists (S (f1 + f2)). cbn [msexpr].
+    rewrite (msexpr_mono _ _ _ _ H1 (f1 + f2)%nat), (msexpr_mono _ _ _ _ H2 (f1 + f2)%nat) by lia. reflexivity.
 Qed.
 
 Lemma MdlSpec_MSpecI : forall inp n v, MdlSpec p inp n v <-> MSpecI inp n v.
@@ -151,17 +160,32 @@ Inductive evr (R : node -> Z -> Prop) : expr -> Z -> list node -> Prop :=
 | evr_mul : forall a b x y l1 l2, evr R a x l1 -> evr R b y l2 -> evr R (EMul a b) (x * y) (l1 ++ l2)
 | evr_lt : forall a b x y l1 l2, evr R a x l1 -> evr R b y l2 -> evr R (ELt a b) (if x <? y then 1 else 0) (l1 ++ l2)
 | evr_mod : forall a m x l, evr R a x l -> evr R (EMod a m) (x mod m) l
-| evr_if : forall c a b x v l1 l2, evr R c x l1 -> evr R (if x =? 0 then b else a) v l2 -> evr R (EIf c a b) v (l1 ++ l2).
+| evr_if : forall c a b x v l1 l2, evr R c x l1 -> evr R (if x =? 0 then b else a) v l2 -> evr R (EIf c a b) v (l1 ++ l2)
+| evr_gnil : evr R (EGroup []) 0 []
+| evr_gcons : forall n ns x y l, R n x -> evr R (EGroup ns) y l -> evr R (EGroup (n :: ns)) (x + y) (n :: l).
 
-Lemma evr_ev : forall R e v l, evr R e v l -> ev R e v.
-Proof. intros R e v l H. induction H; econstructor; eauto. Qed.
+Lemma evr_msev : forall inp (R : node -> Z -> Prop) e v l, evr R e v l ->
+  (forall d x, In d l -> R d x -> MSpecI inp d x) -> msev inp e v.
+Proof.
+  intros inp R e v l H. induction H; intro HR.
+  - constructor.
+  - apply HR; [left; reflexivity|assumption].
+  - constructor; [apply IHevr1|apply IHevr2]; intros; eapply HR; eauto; apply in_or_app; auto.
+  - constructor; [apply IHevr1|apply IHevr2]; intros; eapply HR; eauto; apply in_or_app; auto.
+  - constructor; [apply IHevr1|apply IHevr2]; intros; eapply HR; eauto; apply in_or_app; auto.
+  - constructor. apply IHevr. exact HR.
+  - econstructor; [apply IHevr1|apply IHevr2]; intros; eapply HR; eauto; apply in_or_app; auto.
+  - constructor.
+  - constructor; [apply HR; [left; reflexivity|assumption]|]. apply IHevr. intros d z Hd. apply HR. right. exact Hd.
+Qed.
 
 Lemma evr_reads : forall R e v l, evr R e v l -> forall d, In d l -> In d (expr_reads e).
 Proof.
   intros R e v l H. induction H; intros d Hd; cbn [expr_reads]; try (destruct Hd; fail); auto;
     try (apply in_app_or in Hd; apply in_or_app; destruct Hd; [left|right]; auto; fail).
-  apply in_app_or in Hd. apply in_or_app. destruct Hd as [Hd|Hd]; [left; auto|right].
-  apply in_or_app. apply IHevr2 in Hd. destruct (x =? 0); auto.
+  - apply in_app_or in Hd. apply in_or_app. destruct Hd as [Hd|Hd]; [left; auto|right].
+    apply in_or_app. apply IHevr2 in Hd. destruct (x =? 0); auto.
+  - destruct Hd as [<-|Hd]; [left; reflexivity|right]. apply (IHevr d Hd).
 Qed.
 
 Lemma evr_mono : forall (R R' : node -> Z -> Prop) e v l,
@@ -175,18 +199,36 @@ Proof.
   - constructor; [apply IHevr1|apply IHevr2]; intros; apply HR; auto; apply in_or_app; auto.
   - constructor. apply IHevr. exact HR.
   - econstructor; [apply IHevr1|apply IHevr2]; intros; apply HR; auto; apply in_or_app; auto.
+  - constructor.
+  - constructor; [apply HR; [left; reflexivity|assumption]|]. apply IHevr. intros d z Hd. apply HR. right. exact Hd.
 Qed.
 
 Lemma evr_det : forall (R1 R2 : node -> Z -> Prop) e v1 l1, evr R1 e v1 l1 -> forall v2 l2, evr R2 e v2 l2 ->
   (forall d x y, In d l1 -> R1 d x -> R2 d y -> x = y) -> v1 = v2 /\ l1 = l2.
 Proof.
-  intros R1 R2 e v1 l1 H. induction H; intros v2 l2' H2 HR; inversion H2; subst;
-    try (split; [|reflexivity]; eapply HR; eauto; left; reflexivity);
-    repeat match goal with
-    | IH : forall v2 l2, evr R2 ?e v2 l2 -> _ -> _, H : evr R2 ?e _ _ |- _ =>
-        let A := fresh in let B := fresh in
-        destruct (IH _ _ H) as [A B];
-          [intros; eapply HR; eauto; try (apply in_or_app; auto) | subst; clear IH]
-    end; auto.
+  intros R1 R2 e v1 l1 H.
+  induction H as [z|n v Hn|a b x y l1 l2 Ha IHa Hb IHb|a b x y l1 l2 Ha IHa Hb IHb|a b x y l1 l2 Ha IHa Hb IHb
+                 |a m x l Ha IHa|c a b x v l1 l2 Hc IHc Ha IHa| |n ns x y l Hn Hg IHg];
+    intros v2 l2' H2 HR; inversion H2; subst.
+  - auto.
+  - split; [|reflexivity]. eapply HR; eauto. left. reflexivity.
+  - match goal with A : evr R2 a _ _, B : evr R2 b _ _ |- _ =>
+      destruct (IHa _ _ A) as [-> ->]; [intros; eapply HR; eauto; apply in_or_app; auto|];
+      destruct (IHb _ _ B) as [-> ->]; [intros; eapply HR; eauto; apply in_or_app; auto|] end. auto.
+  - match goal with A : evr R2 a _ _, B : evr R2 b _ _ |- _ =>
+      destruct (IHa _ _ A) as [-> ->]; [intros; eapply HR; eauto; apply in_or_app; auto|];
+      destruct (IHb _ _ B) as [-> ->]; [intros; eapply HR; eauto; apply in_or_app; auto|] end. auto.
+  - match goal with A : evr R2 a _ _, B : evr R2 b _ _ |- _ =>
+      destruct (IHa _ _ A) as [-> ->]; [intros; eapply HR; eauto; apply in_or_app; auto|];
+      destruct (IHb _ _ B) as [-> ->]; [intros; eapply HR; eauto; apply in_or_app; auto|] end. auto.
+  - match goal with A : evr R2 a _ _ |- _ => destruct (IHa _ _ A) as [-> ->]; [exact HR|] end. auto.
+  - match goal with A : evr R2 c _ _ |- _ =>
+      destruct (IHc _ _ A) as [-> ->]; [intros; eapply HR; eauto; apply in_or_app; auto|] end.
+    match goal with B : evr R2 (if _ =? 0 then b else a) _ _ |- _ =>
+      destruct (IHa _ _ B) as [-> ->]; [intros; eapply HR; eauto; apply in_or_app; auto|] end. auto.
+  - auto.
+  - match goal with A : R2 n _, B : evr R2 (EGroup ns) _ _ |- _ =>
+      assert (E : x = x0) by (eapply HR; eauto; left; reflexivity); subst;
+      destruct (IHg _ _ B) as [-> ->]; [intros; eapply HR; eauto; right; assumption|] end. auto.
 Qed.
 End Sem.
